@@ -340,6 +340,13 @@ def c16_direct(cfg):
 
 def _numeric_replay(cfg, model, w, i, j, o):
     """Concrete replay with the REAL sparse LU (no stub): implicit vs complete-basis run, plain numpy."""
+    (a, b), = _numeric_pairs(cfg, model, [(w, i, j, o)])
+    err = float(np.max(np.abs(a - b)))
+    return err > TOL * max(1.0, float(np.max(np.abs(b)))), {"element": [NAMES[w], i, j, o], "max_abs_error": err}
+
+
+def _numeric_pairs(cfg, model, keys, real_h1=False):
+    """[(implicit-mode value, embedded complete-basis value)] for the requested elements, real sparse LU, typed numpy inputs."""
     from pymablock import block_diagonalize
     from pymablock.series import one, zero
     from scipy import sparse
@@ -363,6 +370,8 @@ def _numeric_replay(cfg, model, w, i, j, o):
             re = float(model.get(key + "_r", 0))
             im = float(model.get(key + "_i", 0))
             H1[a, b] = re + 1j * im if (not herm or a <= b) else re - 1j * im
+    if real_h1:
+        H1 = np.ascontiguousarray(H1.real)
     off = np.cumsum([0] + explicit)
     vecs = [Q[:, off[b] : off[b + 1]] for b in range(len(explicit))]
     if biorth:
@@ -385,21 +394,68 @@ def _numeric_replay(cfg, model, w, i, j, o):
         return np.asarray(v.toarray() if hasattr(v, "toarray") else v, dtype=complex)
 
     sizes = list(explicit) + [n - k]
-    a = imp[w][(i, j, o)]
-    b = dense(full[w][(i, j, o)], sizes[i], sizes[j])
-    if i == last and j == last:
-        b = QB @ b @ LB.conj().T
-        a = QB @ LB.conj().T if a is one else dense(a, n, n)
-    elif j == last:
-        b = b @ LB.conj().T
-        a = dense(a, sizes[i], n)
-    elif i == last:
-        b = QB @ b
-        a = dense(a, n, sizes[j])
+    out = []
+    for (w, i, j, o) in keys:
+        a = imp[w][(i, j, o)]
+        b = dense(full[w][(i, j, o)], sizes[i], sizes[j])
+        if i == last and j == last:
+            b = QB @ b @ LB.conj().T
+            a = QB @ LB.conj().T if a is one else dense(a, n, n)
+        elif j == last:
+            b = b @ LB.conj().T
+            a = dense(a, sizes[i], n)
+        elif i == last:
+            b = QB @ b
+            a = dense(a, n, sizes[j])
+        else:
+            a = dense(a, sizes[i], sizes[j])
+        out.append((a, b))
+    return out
+
+
+def c06_typed(cfg):
+    """Typed twin of C06 (concrete, declared): the same public calls with float64 / complex128 numpy and scipy.sparse inputs and the REAL
+    sparse LU at one dyadic point per configuration: implicit mode == complete-basis run embedded by the complement basis, every element."""
+    rec = Rec("C06", cfg)
+    herm = cfg.get("hermitian", True)
+    n = cfg["n"]
+    vals = [Fraction(1), Fraction(-1), Fraction(2), Fraction(1, 2), Fraction(-3, 2), Fraction(3), Fraction(-2), Fraction(1, 4)]
+    model = {}
+    cnt = 0
+    for a in range(n):
+        for b in range(n):
+            key = f"h_{min(a, b)}{max(a, b)}" if herm else f"h_{a}{b}"
+            for part in ("_r", "_i"):
+                if key + part not in model:
+                    model[key + part] = Fraction(0) if (part == "_i" and a == b and herm) else vals[cnt % len(vals)]
+                    cnt += 1
+    sizes = list(cfg["explicit"]) + [n - sum(cfg["explicit"])]
+    keys = [(w, i, j, o) for o in range(cfg["max_order"] + 1) for w in range(3) for i in range(len(sizes)) for j in range(len(sizes))]
+    sig = f"implicit-typed:herm={herm}:basis={cfg['basis']}:real_h1={bool(cfg.get('real_h1'))}"
+    try:
+        pairs = _numeric_pairs(cfg, model, keys, real_h1=bool(cfg.get("real_h1")))
+    except Exception as e:  # noqa: BLE001
+        from .herm import library_exception_info
+
+        is_lib, where = library_exception_info(e, pure_inputs=True)
+        if not is_lib:
+            raise
+        rec.direct_violation("library raised in implicit mode on typed input", sig + f":raised-{type(e).__name__}", {"exception": f"{type(e).__name__}: {e}"[:300], "where": where}, reproduced=True)
+        return rec
+    worst, bad = 0.0, None
+    for key, (a, b) in zip(keys, pairs):
+        err = float(np.max(np.abs(a - b))) if a.size else 0.0
+        sc = max(1.0, float(np.max(np.abs(b))) if b.size else 1.0)
+        worst = max(worst, err / sc)
+        if err > 1e-8 * sc and bad is None:
+            bad = dict(element=[NAMES[key[0]], *key[1:]], max_abs_error=err, scale=sc)
+    if bad:
+        rec.direct_violation("implicit mode differs from the complete-basis run on typed input (real sparse LU)", sig, bad, reproduced=True)
     else:
-        a = dense(a, sizes[i], sizes[j])
-    err = float(np.max(np.abs(a - b)))
-    return err > TOL * max(1.0, float(np.max(np.abs(b)))), {"element": [NAMES[w], i, j, o], "max_abs_error": err}
+        rec.discharged(f"typed run, real sparse LU: all {len(keys)} elements agree (max rel. dev. {worst:.1e})", "confirmed")
+    rec.nontrivial = True
+    rec.sample = {"config": cfg}
+    return rec
 
 
 def configs(tier):
@@ -440,7 +496,15 @@ def configs(tier):
             cfgs.append(dict(hermitian=herm, n=5, explicit=[2], basis="complex_hadamard", spectrum=["0", "2", "3", "7", "12"], max_order=3))
             cfgs.append(dict(hermitian=herm, n=5, explicit=[1, 1], basis="hadamard", spectrum=["0", "1", "3", "7", "12"], max_order=3))
             cfgs.append(dict(hermitian=herm, n=4, explicit=[2], basis="complex", spectrum=["0", "2", "3", "7"], max_order=4))
-    return [("vf.props.implicit", "c06", c) for c in cfgs]
+    jobs = [("vf.props.implicit", "c06", c) for c in cfgs]
+    # typed twin: every configuration once with complex128 H_1 and (real bases only) once with float64 H_1, real sparse LU
+    for c in cfgs:
+        if c.get("pairs"):
+            continue
+        jobs.append(("vf.props.implicit", "c06_typed", dict(c, _job="typed")))
+        if c["basis"] in ("identity", "perm", "hadamard", "biorth", "rotation_pair"):
+            jobs.append(("vf.props.implicit", "c06_typed", dict(c, _job="typed", real_h1=True)))
+    return jobs
 
 
 def configs_c16_direct(tier):
